@@ -507,7 +507,8 @@ XAtoms == << Tok("T1"), Tok("T2"), Tok("T3"), Tok("T8"), Tok("T9"),
              Iface("I1", "a", <<>>), Iface("I2", "a", <<"I1">>),
              MkAtom("C", "tok", "a", <<>>, <<>>, <<Impl("I1", "pointer")>>, ""),
              MkAtom("C1", "tok", "a", <<>>, <<>>, <<Impl("I1", "pointer")>>, ""),
-             StructT("S1", "a", <<Fld("A", "T1"), FldT("D", "T8", "foreign"), FldT("E", "T3", "other")>>) >>
+             StructT("S1", "a", <<Fld("A", "T1"), FldT("D", "T8", "foreign"), FldT("E", "T3", "other")>>),
+             TokIn("U1", "b"), TokIn("U2", "b"), StructT("S9", "b", <<Fld("A", "U1"), Fld("c", "U2")>>) >>
 XF(name, ins, out) == Func(name, ins, out, FALSE, FALSE)
 XInj(name, params, out, items, file) == [Inj(name, params, out, FALSE, FALSE, items) EXCEPT !.file = file]
 XProg(v) ==
@@ -549,6 +550,10 @@ XProg(v) ==
          mk(<<XF("PProd", <<>>, "T2"), XF("PTest", <<>>, "T2"), XF("P1", <<"T2">>, "T1")>>,
             <<[SetD("ProdSet", "a", <<ItL(1)>>) EXCEPT !.grp = "g"], [SetD("TestSet", "a", <<ItL(2)>>) EXCEPT !.grp = "g"]>>,
             <<XInj("InjectProd", <<>>, "T1", <<ItS(1), ItL(3)>>, 1), XInj("InjectTest", <<>>, "T1", <<ItS(2), ItL(3)>>, 1)>>)
+    [] v \in {"foreign-struct-star", "foreign-struct-unexported-name", "foreign-struct-exported-name"} ->   \* a struct of another package with an unexported field
+         mk(<<StructL("St", "S9", IF v = "foreign-struct-star" THEN <<>> ELSE IF v = "foreign-struct-unexported-name" THEN <<"A", "c">> ELSE <<"A">>, v = "foreign-struct-star"),
+              FuncIn("PU1", "b", <<>>, "U1", FALSE, FALSE)>> \o (IF v = "foreign-struct-exported-name" THEN <<>> ELSE <<FuncIn("PU2", "b", <<>>, "U2", FALSE, FALSE)>>), <<>>,
+            <<XInj("Inject", <<>>, "S9", IF v = "foreign-struct-exported-name" THEN <<ItL(1), ItL(2)>> ELSE <<ItL(1), ItL(2), ItL(3)>>, 1)>>)
     [] v = "same-set-twice-direct" ->          \* one set listed twice in the same call
          mk(<<XF("P2", <<>>, "T2"), XF("P1", <<"T2">>, "T1")>>, <<SetD("SetA", "a", <<ItL(1)>>)>>,
             <<XInj("Inject", <<>>, "T1", <<ItS(1), ItL(2), ItS(1)>>, 1)>>)
@@ -557,6 +562,7 @@ XProg(v) ==
             <<XInj("Inject", <<>>, "T1", <<ItS(2), ItL(2)>>, 1)>>)
 XVariants == {"star-foreign-tag-missing", "star-foreign-tag-ok", "two-files-first-missing", "two-files-second-missing", "two-files-ok",
               "missing-behind-bind", "missing-behind-bind-2", "bind-iface-not-implementing", "arg-returned-through-bind",
-              "arg-returned-directly", "shared-import-bind-lacks-concrete", "multi-name-var-sets", "same-set-twice-direct", "same-set-twice-in-set"}
+              "arg-returned-directly", "shared-import-bind-lacks-concrete", "multi-name-var-sets", "same-set-twice-direct", "same-set-twice-in-set",
+              "foreign-struct-star", "foreign-struct-unexported-name", "foreign-struct-exported-name"}
 FamilyX(p, vs) == \E v \in vs : p = XProg(v)
 =============================================================================
